@@ -172,19 +172,22 @@ impl Tree {
     }
 
     pub fn append_pre_header(&self, target_id: NodeId, new: Tree) -> Tree {
-        let mut children = self.children.clone();
+        let mut children: Vec<Tree> = self
+            .children
+            .iter()
+            .map(|child| child.append_pre_header(target_id, new.clone()))
+            .collect();
 
         if self.id_eq(target_id) {
-            children.insert(self.pre_sub_header_position(), new.clone());
+            // the new subtree is inserted as it is and not searched again: it may itself
+            // hold the target id (a note inlined into itself)
+            children.insert(self.pre_sub_header_position(), new);
         }
 
         Tree {
             id: self.id,
             node: self.node.clone(),
-            children: children
-                .into_iter()
-                .map(|child| child.append_pre_header(target_id, new.clone()))
-                .collect(),
+            children,
         }
     }
 
